@@ -28,7 +28,10 @@ LEVEL = "exploration"
 # python value trees: None, bool, int, float, str, list, dict
 
 def py_values(thorough):
-    scal = [None, True, False, 0, 1, -1, 2 ** 53 + 1, 2 ** 63 - 1, -2 ** 63, 2 ** 63, 2 ** 63 + 1, 2 ** 64 - 1, 2 ** 64, -2 ** 63 - 1, 10 ** 30, 0.5, -1.5, 1e20, 1e-7, 1.7976931348623157e308, 5e-324, 1.0, 100.0]
+    scal = [None, True, False, 0, 1, -1, 2 ** 53 + 1, 2 ** 63 - 1, -2 ** 63, 2 ** 63, 2 ** 63 + 1, 2 ** 64 - 1, 2 ** 64, -2 ** 63 - 1, 10 ** 30, 0.5,
+            # floats whose shortest decimal form needs a correctly rounding reader (a fast-path reader is 1 ULP off)
+            10928588.983213553, 5.7804021771411506e-220, 0.1 + 0.2, 1 / 3, 2.2250738585072014e-308, 8.41e21, 9007199254740993.0, 1.0000000000000002,
+            123456.789e-3, 4.35, 0.000001234567890123, 7.038531e-26, 1.7976931348623157e308 / 3, -1.5, 1e20, 1e-7, 1.7976931348623157e308, 5e-324, 1.0, 100.0]
     strs = ["", "a", "true", "null", "~", "1", "1.0", "yes", "a: b", "- x", "#c", " lead", "trail ", "l1\nl2", "x\n", "\t", "\"", "'", "\\", "é", "日本",
             "😀", "a" * 100, "\u0001", "\u007f", "[x]", "{x}", "a,b", "k=v", "0x1F", "1e3", ".5", "+1", "---", "...", "?", "<<", "*a", "&a", "!t", "%", "@", "`", "|", ">"]
     for s in scal:
